@@ -162,3 +162,10 @@ Lemma vkey1_Slack : forall j, V fSlack (vkey1 (Z.of_nat j)) = V fSlack [N.of_nat
 Proof. intros; unfold vkey1. rewrite <- nat_N_Z, N2Z.id. reflexivity. Qed.
 Lemma vkey3_Gamma : forall u v j, V fGamma (vkey3 (u, v, Z.of_nat j)) = V fGamma [u; v; N.of_nat j].
 Proof. intros; unfold vkey3; cbn [fst snd]. rewrite <- nat_N_Z, N2Z.id. reflexivity. Qed.
+Lemma index_ok_range_ : forall (A : Type) (l : list A) i, In i (py_range (Z.of_nat (length l))) -> negb (py_index_ok l i) = false.
+Proof.
+  intros A l i Hi. apply in_py_range in Hi. destruct Hi as [j [Hj ->]]. apply negb_false_iff.
+  unfold py_index_ok, py_len. apply andb_true_iff. split; [apply Z.leb_le | apply Z.ltb_lt]; lia.
+Qed.
+Lemma map_pair_id : forall (A B : Type) (l : list (A * B)), map (fun '(c0, c1) => (c0, c1)) l = l.
+Proof. intros A B l. rewrite <- (map_id l) at 2. apply map_ext. intros [a b]. reflexivity. Qed.
